@@ -350,3 +350,109 @@ Proof.
     rewrite skip_spaces_nonspace by assumption. unfold vp_dollar_dcd, chr. rewrite Hc3. reflexivity.
 Qed.
 End Blk.
+
+(* ------------------------------------------------------------------ the grant blocks of a document *)
+Definition gidx (i : nat) : text := digits_of_N (N.of_nat i).
+Lemma gblk_B st i g : gblk st i g = flat (B (gidx i) (gp_num g) (gp_fa g) (gp_fb g) (gp_sh g) (gp_sa g) (gp_sb g) (gp_ea g) (gp_eb g) st).
+Proof. reflexivity. Qed.
+
+Section Rows.
+Context {A : Type} (m : text -> option (A * text)) (g : guard) (Hg : guarded m g) (val : nat -> gp -> A) (k : nat).
+Hypothesis Hfact : forall st i gr, gp_ok gr ->
+  blk_fact (gidx i) (gp_num gr) (gp_fa gr) (gp_fb gr) (gp_sh gr) (gp_sa gr) (gp_sb gr) (gp_ea gr) (gp_eb gr) m g st (val i gr) k.
+
+Definition grem (st : bool) (i : nat) (gr : gp) : text :=
+  flat (skipn k (B (gidx i) (gp_num gr) (gp_fa gr) (gp_fb gr) (gp_sh gr) (gp_sa gr) (gp_sb gr) (gp_ea gr) (gp_eb gr) st)).
+
+Lemma gp_B_ok st i gr : gp_ok gr ->
+  Forall seg_ok (B (gidx i) (gp_num gr) (gp_fa gr) (gp_fb gr) (gp_sh gr) (gp_sa gr) (gp_sb gr) (gp_ea gr) (gp_eb gr) st).
+Proof.
+  intros (N1 & N2 & N3 & F & S & Sa & E). apply B_ok; auto. apply digits_of_N_ok.
+Qed.
+
+Lemma rows_hit st i gr R : gp_ok gr -> after_blk st R -> find m (gblk st i gr ++ R) = Some (val i gr, grem st i gr ++ R).
+Proof. intros Hok HR. rewrite gblk_B. exact (proj1 (Hfact st i gr Hok) R HR). Qed.
+Lemma rows_skip st i gr R : gp_ok gr -> find m (grem st i gr ++ R) = find m R.
+Proof.
+  intros Hok. unfold grem. rewrite <- (find_seek m g Hg _ R).
+  - rewrite (proj2 (Hfact st i gr Hok)). reflexivity.
+  - pose proof (gp_B_ok st i gr Hok) as H. rewrite <- (firstn_skipn k _) in H. apply Forall_app in H. exact (proj2 H).
+Qed.
+
+Lemma gblk_nonnil st i gr : (1 <= length (gblk st i gr))%nat.
+Proof. unfold gblk, grant_segs, grant_segs'. cbn [flat seg_text app]. rewrite !app_length. cbn [length k_Grant_]. lia. Qed.
+Lemma blocks_length st gs : forall i, (length gs <= length (blocks (gblk st) i gs))%nat.
+Proof.
+  induction gs as [|gr gs IH]; intros i; [cbn; lia|]. cbn [blocks length]. rewrite app_length.
+  pose proof (gblk_nonnil st i gr). specialize (IH (S i)). lia.
+Qed.
+
+(* the rows of one kind over the whole body *)
+Lemma rows_all st gs hd tl :
+  Forall gp_ok gs -> (forall X, find m (hd ++ X) = find m X) -> after_blk st tl -> find m tl = None ->
+  all_matches m (hd ++ blocks (gblk st) 1 gs ++ tl) = vals val 1 gs.
+Proof.
+  intros Hgs Hhd Htl Hn. unfold all_matches.
+  rewrite (amf_find_eq m _ (blocks (gblk st) 1 gs ++ tl) _ (Hhd _)).
+  apply (all_matches_fuel_blocks m gp_ok (after_blk st) (gblk st) (grem st) val); auto.
+  - intros i gr R. apply rows_hit.
+  - intros i gr R. apply rows_skip.
+  - intros i gr R. apply after_blk_gblk.
+  - rewrite !app_length. pose proof (blocks_length st gs 1). lia.
+Qed.
+End Rows.
+
+Definition eso_hd : text := k_exercise_details ++ [10; 10].
+Definition eso_tl (st : bool) : text := sty st eso0_ind eso1_ind ++ k_exercise_date.
+Definition eso_body (st : bool) (gs : list gp) : text := eso_hd ++ blocks (gblk st) 1 gs ++ eso_tl st.
+
+Lemma after_blk_tl st : after_blk st (eso_tl st).
+Proof. exists 69. eexists. split; [reflexivity|repeat split; reflexivity]. Qed.
+
+Ltac hd_skip Hg :=
+  intros X; match goal with |- find ?m _ = _ =>
+    rewrite <- (find_seek m _ Hg [SL eso_hd] X ltac:(repeat constructor)) end;
+  match goal with |- find _ (flat ?S ++ _) = _ => let s' := eval vm_compute in S in change S with s' end; reflexivity.
+Ltac tl_none Hg :=
+  match goal with |- find ?m (eso_tl ?b) = None =>
+    destruct b;
+    [ change (eso_tl true) with (flat [SL eso1_ind; SL k_exercise_date])
+    | change (eso_tl false) with (flat [SL eso0_ind; SL k_exercise_date]) ];
+    (apply (find_none m _ Hg eq_refl); [repeat constructor|vm_compute; reflexivity])
+  end.
+
+Lemma body_idx st gs : Forall gp_ok gs -> length (all_matches m_grant_idx (eso_body st gs)) = length gs.
+Proof.
+  intros H. unfold eso_body.
+  rewrite (rows_all m_grant_idx _ g_grant_idx (fun i _ => gidx i) 3); auto.
+  - apply vals_length.
+  - intros s i gr (N1 & N2 & N3 & F & S & Sa & E). apply blk_idx; auto. apply digits_of_N_ok.
+  - apply after_blk_tl.
+  - tl_none g_grant_idx.
+Qed.
+
+Ltac body_rows Hg fact kk :=
+  intros H; unfold eso_body;
+  match goal with |- all_matches ?m _ = map ?f _ =>
+    rewrite (rows_all m _ Hg (fun _ gr => f gr) kk); auto;
+    [ apply vals_const
+    | intros s i gr (N1 & N2 & N3 & F & S & Sa & E); apply fact; auto; apply digits_of_N_ok
+    | apply after_blk_tl
+    | tl_none Hg ]
+  end.
+
+Lemma body_nums st gs : Forall gp_ok gs ->
+  all_matches (m_row k_grant_number vp_digits) (eso_body st gs) = map gp_num gs.
+Proof. body_rows (g_row k_grant_number vp_digits) blk_num 5%nat. Qed.
+Lemma body_fmvs st gs : Forall gp_ok gs ->
+  all_matches (m_row k_exercise_mv vp_dollar_dcd) (eso_body st gs) = map (fun gr => gp_fa gr ++ 46 :: gp_fb gr) gs.
+Proof. body_rows (g_row k_exercise_mv vp_dollar_dcd) blk_fmv 9%nat. Qed.
+Lemma body_shares st gs : Forall gp_ok gs ->
+  all_matches (m_row k_shares_exercised vp_dcd) (eso_body st gs) = map gp_sh gs.
+Proof. body_rows (g_row k_shares_exercised vp_dcd) blk_shares 11%nat. Qed.
+Lemma body_sales st gs : Forall gp_ok gs ->
+  all_matches (m_row k_sale_price vp_dollar_dcd) (eso_body st gs) = map (fun gr => gp_sa gr ++ 46 :: gp_sb gr) gs.
+Proof. body_rows (g_row k_sale_price vp_dollar_dcd) blk_sale 15%nat. Qed.
+Lemma body_fees st gs : Forall gp_ok gs ->
+  all_matches (m_row k_comission_fee vp_dollar_dcd) (eso_body st gs) = map (fun gr => gp_ea gr ++ 46 :: gp_eb gr) gs.
+Proof. body_rows (g_row k_comission_fee vp_dollar_dcd) blk_fee 19%nat. Qed.
